@@ -189,6 +189,9 @@ static int run_history(const std::string& in, const std::string& out) {
                     }
                     d << "COMPDAT\n '" << w << "' " << h << " " << h << " " << o["k1"] << " " << o["k2"] << " " << o["state"].get<std::string>()
                       << " 1* " << rec * 10 << " 0.2 " << rec * 100 << " 0 1* Z /\n/\n";
+                } else if (o["op"] == "COMPLUMP") {
+                    auto n = [](int v) { return v == 0 ? std::string("1*") : std::to_string(v); };
+                    d << "COMPLUMP\n '" << w << "' 1* 1* " << n(o["k1"]) << " " << n(o["k2"]) << " " << o["n"] << " /\n/\n";
                 } else if (o["op"] == "WPIMULT") {
                     d << "WPIMULT\n '" << w << "' " << o["f"] << " " << sel_items(o["sel"], h, h, true) << " /\n/\n";
                 } else {
